@@ -21,6 +21,7 @@ func VH_C04_step() {
 	cs := vU64("cs")
 	cr := vU64("cr")
 	vAssume(vAll(cs < 1<<62, cr < cs, vAny(cs > 0, cr == 0)))
+	vhOtherCounters(b, "ctrB")
 	vhSetCounters(a, b, cs, cr)
 	vhFixOrder(a, b)
 
